@@ -17,6 +17,7 @@ EXPLANATION = ("Decided from MIR: (R1) ContentPackCreator::detect_compression re
                "the stored address on the Occupied arm, and the key is the Blake3 of the whole content (input rewound afterwards). The entropy "
                "threshold and hash collisions are not decided."
                ' Added later: (R5) compressor workers only build WriteTask::Compressed; (R6) the configured Compression reaches the cluster writer and the routing decision unchanged. (R4) the cache key is the hash alone.')
+EXPLANATION += ' Batch 11: (R7) a cluster that holds contents is written whatever their size (= C01-R13).'
 ASSUMPTIONS = ["Blake3 collision resistance", "HashMap entry API semantics", "rustc MIR construction and trait resolution"]
 
 
@@ -431,7 +432,15 @@ def r6_configured_compression_is_the_one_used(cx):
           "the Compression parameter reaches ClusterWriterProxy::new and the `compression` field as it was given (Compression values built in the constructor: lines %s)" % rebuilt)
 
 
+def r7_every_cluster_with_contents_is_written(cx):
+    """'a content ends up in a cluster of the kind its hint asks for': the cluster it was put in is written -- also when all
+    the contents of that cluster are empty (= C01-R13 under C16)"""
+    import c01
+    reuse(cx, c01.r13_creator_addresses, "R13", "R7", only="ClusterCreator")
+
+
 RULES = [
+    ("R7", r7_every_cluster_with_contents_is_written, 2),
     ("R6", r6_configured_compression_is_the_one_used, 1),
     ("R5", r5_compressors_only_emit_compressed_clusters, 1),
     ("R1", r1_decision_table, 6),
